@@ -25,7 +25,8 @@ from .common import new_registry, fn_entry
 
 OBLIGATION_FLOOR = 20
 Z3_TIMEOUT_MS = 30000
-UNITS = ['UnitCube', 'Ellipsoid', 'PhaseShift', 'Mixture', 'Union',
+UNITS = ['UnitCube', 'Ellipsoid', 'PhaseShift', 'Mixture', 'Union', 'NeuralBound',
+         'NautilusBound', 'NautilusBound.update',
          'Union.update']
 BRANCH_COVERED_FUNCTIONS = ()
 DEAD_BRANCHES = ()
@@ -209,6 +210,15 @@ def build(cx, fe, tier, info, only=None):
     if only in (None, 'Union.update'):
         from .C09_union import union_update_unit
         union_update_unit(cx, fe, info)
+    if only in (None, 'NeuralBound'):
+        from .C09_nautilus import neural_units
+        neural_units(cx, fe, info)
+    if only in (None, 'NautilusBound'):
+        from .C09_nautilus import nautilus_units
+        nautilus_units(cx, fe, info)
+    if only in (None, 'NautilusBound.update'):
+        from .C09_nautilus import nautilus_update_unit
+        nautilus_update_unit(cx, fe, info)
     info['inlined'] = sorted(reg.inlined)
     info['assumptions'] = [
         'C09: h5py stores and returns scalars, strings and arrays exactly; a '
@@ -216,7 +226,12 @@ def build(cx, fe, tier, info, only=None):
         'C09: contains / log_v / sample of a bound are functions of the fields '
         'compared here and of the generator (their own contracts: C07/C08)',
         'C09: NeuralNetworkEmulator.write/read iterate sklearn internals: '
-        'outside the subset, bounded (tests/test_io.py::test_neural_io)',
+        'outside the subset; its round trip is an assumed contract of the '
+        'NeuralBound unit, bounded by check_c09.py and '
+        'tests/test_io.py::test_neural_io',
+        'C09: components (Ellipsoid, Union, NeuralBound) inside NeuralBound / '
+        'NautilusBound are abstract values with the round-trip law proved by '
+        'their own units',
     ]
 
 
